@@ -17,13 +17,15 @@ func init() {
 func init() {
 	register(Harness{
 		Prop: "C14", Pkg: "rest/client", Func: "VerifC14Client",
-		InitAbs:  []string{"vendor/golang.org/x/net/http/httpguts"},
-		Quick:    grid(rng(0, 5)),
-		Thorough: grid(rng(0, 5)),
-		Unwind:   80,
-		Desc:     "every operation of the bundled Go client, executed with the real net/url and net/http request construction (from their SSA), against a capturing transport: method, decoded path /api/v1/mailbox/<name>[/<id>[/source]] and — for mark-seen — presence of the JSON body the handler requires",
-		Bounds:   "param (client operation); mailbox name from a menu of 9 names with URL-significant characters (symbolic selector); the escaping itself is checked for all ASCII names of <= 3 (6) bytes by VerifC14Escape",
-		Assumes:  []string{"the route table (method, path template, body requirement) is read from rest/routes.go and apiv1_controller.go; gorilla/mux matching itself is not executed"},
+		ExtraPkgs: []string{"rest", "server/web"},
+		InitPkgs:  []string{"server/web"},
+		InitAbs:   []string{"vendor/golang.org/x/net/http/httpguts"},
+		Quick:     grid(rng(0, 5)),
+		Thorough:  grid(rng(0, 5)),
+		Unwind:    80,
+		Desc:      "every operation of the bundled Go client, executed with the real net/url and net/http request construction (from their SSA), against a capturing transport: method, decoded path /api/v1/mailbox/<name>[/<id>[/source]], the request is routed to the mailbox route and the handler's route variable (real web.NewContext) is the mailbox name, and — for mark-seen — presence of the JSON body the handler requires",
+		Bounds:    "param (client operation); mailbox name from a menu of 9 names with URL-significant characters (symbolic selector); the escaping itself is checked for all ASCII names of <= 3 (6) bytes by VerifC14Escape",
+		Assumes:   []string{"the route table (method, path template, body requirement) is read from rest/routes.go and apiv1_controller.go; gorilla/mux matching itself is not executed under the engine: its documented segment rule stands in, applied to the decoded or the encoded path according to the useEncodedPath flag of the real web.Router object (built by package web's initialiser, executed from SSA); counterexamples are replayed against the real gorilla/mux router with the real route table", "gorilla/mux SetURLVars/Vars (request context) are modelled as a variable holding the vars of the request in flight"},
 	}, Harness{
 		Prop: "C14", Pkg: "rest/client", Func: "VerifC14Escape",
 		Quick:    grid(rng(0, 3)),
